@@ -64,6 +64,10 @@ def run(ctx):
     escape(ctx, model)
     fresh(ctx, model, engine)
     ckl(ctx, model)
+    from .common import ckl_returns_collection_param
+    ckl_returns_collection_param(ctx, model, "C16.ckl.alias", "the result is then the caller's own container, and a later "
+                                 "in-place change of either shows through the other (values produced by "
+                                 "non-mutating functions are independent of their inputs)")
 
 
 def natives(ctx, model, engine):
